@@ -2267,6 +2267,19 @@ func runRestoreCase(rng *rand.Rand, out *bufio.Writer, st *stats, caseNo int) {
 		}
 		time.Sleep(time.Duration(5+rng.Intn(30)) * time.Millisecond)
 	}
+	// optionally the leader of the moment is cut off with writes in flight (it keeps uncommitted entries,
+	// one of them at the index the restore will use), and the restore is done by its successor
+	deposed := false
+	if l0 := c.leader(); l0 != nil && rng.Intn(4) == 0 {
+		deposed = true
+		for k, m := 0, 2+rng.Intn(4); k < m; k++ {
+			c.apply(l0, "a")
+		}
+		synctest.Wait()
+		c.isolate(l0.id, true)
+		time.Sleep(400 * time.Millisecond)
+		st.Hist["restore-after-deposing-a-leader-with-writes-in-flight"]++
+	}
 	// optionally cut a follower off so that it lags behind the restore
 	l := c.leader()
 	if l != nil && rng.Intn(2) == 0 {
@@ -2301,7 +2314,8 @@ func runRestoreCase(rng *rand.Rand, out *bufio.Writer, st *stats, caseNo int) {
 		}
 		var data []int
 		racing := rng.Intn(4) == 0
-		for k, m := 0, rng.Intn(5); k < m || (racing && k == 0); k++ {
+		// (a restore that may be cut short carries a non-empty state, so that its traces can be told apart)
+		for k, m := 0, rng.Intn(5); k < m || ((racing || deposed) && k == 0); k++ {
 			data = append(data, 9000+caseNo%100*10+k)
 		}
 		blob := encodeState(data)
